@@ -38,8 +38,8 @@ VERIF = Path(__file__).resolve().parents[1]
 LEAN = VERIF / 'lean'
 REPO = Path(os.environ.get('IBL_REPO', '/repo'))
 SRC = REPO / 'src'
-EVIDENCE = VERIF / 'evidence'
-REPLAYS = VERIF / 'replays'
+EVIDENCE = Path(os.environ.get('VERIF_EVIDENCE_DIR') or VERIF / 'evidence')   # seeded_matrix redirects both so that runs
+REPLAYS = Path(os.environ.get('VERIF_REPLAY_DIR') or VERIF / 'replays')      # against a mutated copy never touch the committed files
 KNOWN_FILE = VERIF / 'known_findings.txt'
 GUARD = 'IBL_NEUROPIXEL_VERIF'
 
@@ -442,7 +442,7 @@ def run_property(pid, tier, replay_path=None):
     (EVIDENCE / f'{pid}.json').write_text(json.dumps(ev, indent=1, default=str))
     if violation:
         path, found = violation
-        rel = os.path.relpath(path, VERIF)
+        rel = os.path.relpath(path, VERIF) if str(path).startswith(str(VERIF)) else str(path)
         print(f'VIOLATION property={pid} replay={rel}' + ('' if found else ' no-failing-input-found'))
         return 1
     print(f'OK property={pid} tier={tier} seed={seed} theorems={discharged}/{len(obligations)} '
